@@ -170,8 +170,12 @@ package ischema
 //@   ensures forall k constraint.Type :: (k in m.data) == old(k in m.data)
 //@   ensures result == nil ==> (forall k constraint.Type :: (k in m.data) ==> m.data[k] == call(fn, k, old(m.data[k])))
 //@   ensures forall k constraint.Type :: (k in m.data) ==> (m.data[k] == old(m.data[k]) || m.data[k] == call(fn, k, old(m.data[k])))
+//-  an entry whose callback fails keeps its value (the result that comes with an error is never stored)
+//@   ensures forall k constraint.Type :: (k in m.data) && call1(fn, k, old(m.data[k])) != nil ==> m.data[k] == old(m.data[k])
+//@   ensures result != nil ==> !(forall k constraint.Type :: (k in m.data) ==> call1(fn, k, old(m.data[k])) == nil)
 //@   no_panic
 //@   loop#1 invariant wfConstraints(m) && -1 <= rangeindex && rangeindex < len(m.order)
+//@   loop#1 invariant forall k constraint.Type :: (k in m.data) && m.$pos[k] <= rangeindex ==> call1(fn, k, old(m.data[k])) == nil
 //@   loop#1 invariant m.order == old(m.order) && elems(m.order) == old(elems(m.order)) && m.data == old(m.data) && m.$pos == old(m.$pos)
 //@   loop#1 invariant forall k constraint.Type :: (k in m.data) == old(k in m.data)
 //@   loop#1 invariant forall k constraint.Type :: (k in m.data) && m.$pos[k] <= rangeindex ==> m.data[k] == call(fn, k, old(m.data[k]))
